@@ -401,6 +401,37 @@ func rulesC19(w *World, o *Out) {
 			o.Check("C19.R2", "Insert|has "+st.name, len(st.sites) > 0, w.Pos(ins.Pos()), "index update missing")
 		}
 	}
+	// the account a transaction is filed under is its first signer in Insert and in Remove alike: any other
+	// identity (the fee payer) lets transactions of different signers with equal sequence numbers share a key
+	for _, fn := range []*ssa.Function{ins, rem} {
+		if fn == nil {
+			continue
+		}
+		sts := storesToField(fn, "txMeta", "sender")
+		fname := strings.SplitN(fn.Name(), "[", 2)[0]
+		o.Count("C19.R2 "+fname+" index keys built", len(sts), 1)
+		for i, st := range sts {
+			_, calls := fl.Influence(st.Val)
+			var odd []string
+			hasAddr := false
+			for c := range calls {
+				cal, ok := CalleeOf(c.Common())
+				if !ok {
+					continue
+				}
+				switch cal.Name {
+				case "Address":
+					hasAddr = true
+				case "GetSignaturesV2", "String", "AccAddress":
+				default:
+					odd = append(odd, cal.String())
+				}
+			}
+			sort.Strings(odd)
+			o.Check("C19.R2", fname+"|a transaction is filed under its first signer"+ordSuffix(i), hasAddr && len(odd) == 0, w.Pos(st.Pos()),
+				"the sender of the index key must be the address of the first signature's public key and nothing else; also computed from: "+strings.Join(odd, ", "))
+		}
+	}
 	if rem != nil {
 		o.Analysed(w.FuncKey(rem))
 		pr := fieldMethodCalls(fl, rem, "priorityIndex", "Remove")
